@@ -238,6 +238,13 @@ theorem facts_stall_abort :
     Facts.C15.abortAborts = true :=
   ⟨by decide, by decide, by decide⟩
 
+/-- **Graceful close**: `transport.close()` calls `close()` on the asyncio transport (the
+`gclose` event: `is_closing()` true at once, the loss only once the send buffer is empty), and
+`is_closing()` is "closed event set or asyncio transport closing" - the model's `closing`. -/
+theorem facts_close :
+    Facts.C15.closeCloses = true ∧ Facts.C15.isClosingIsOr = true :=
+  ⟨by decide, by decide⟩
+
 /-! ## F14 (pinned tree; repaired by a `fix:` commit) -/
 
 /-- with the pinned single `await self._can_send.wait()` three blocked senders are all released
